@@ -228,6 +228,21 @@ pub fn construct_case(b: &Built, caps: &[VCap]) -> (String, Vec<(String, String)
                     }
                 }
             }
+            // Notification lands at queue_notify_off x the multiplier of the *selected* capability.
+            let mut t = t;
+            if let Ok(wd) = &want {
+                let nq = b.dev.borrow().queues.len() as u16;
+                for q in 0..nq {
+                    b.trace.borrow_mut().clear();
+                    let r = crate::util::catch(|| t.notify(q));
+                    let off = ((q * 3 + 1) % 7) as u64 * wd.mult as u64;
+                    let nw: Vec<(bool, u64, u8, u64)> = b.trace.borrow().iter().filter(|a| a.region != Region::PciCommon).map(|a| (a.write, a.off, a.width, a.value)).collect();
+                    if off + 2 <= wd.notify.1 && (r.is_err() || nw != vec![(true, off, 2, q as u64)]) {
+                        out.push(("notify-offset".into(), format!("notify({}) -> {:?} accessed {:x?}; expected one 16-bit write at queue_notify_off x multiplier {} = {:#x} inside the selected notify window", q, r.err(), nw, wd.mult, off)));
+                    }
+                }
+                b.trace.borrow_mut().clear();
+            }
             transport = Some(t);
         }
     }
